@@ -293,8 +293,10 @@ pub fn gen_abuse(rng: &mut Prng, h2: &mut H2Knobs, tier: Tier) -> ClientAbuse {
             let extra = *rng.pick(&[1u32, 2, 5]);
             let hpack_probe = rng.below(2) == 0;
             let with_body = !hpack_probe && rng.below(2) == 0;
-            ca.kind = Kind::TooManyStreams { extra, hpack_probe, with_body };
-            ca.feature = format!("max_concurrent_streams/exceeded{}{}", if hpack_probe { "/hpack_reference_to_refused_block" } else { "" }, if with_body { "/with_body" } else { "" });
+            // (own PRNG stream: the plans drawn before this variant existed stay what they were)
+            let window_probe = with_body && Prng::derive(((extra as u64) << 40) ^ ((h2.rst_window as u64) << 24) ^ ((h2.settings_window as u64) << 12) ^ (h2.glitch as u64 * 31 + h2.header_list as u64 + h2.continuation as u64 * 7), "c15/window_probe").below(2) == 0;
+            ca.kind = Kind::TooManyStreams { extra, hpack_probe, with_body, window_probe };
+            ca.feature = format!("max_concurrent_streams/exceeded{}{}{}", if hpack_probe { "/hpack_reference_to_refused_block" } else { "" }, if with_body { "/with_body" } else { "" }, if window_probe { "/then_upload" } else { "" });
             ca.followup = false;
         }
     }
@@ -407,6 +409,7 @@ pub fn gen_client(seed: u64, tier: Tier) -> NetPlan {
         if preface_flags_supported() || !matches!(ca.phase, Phase::NoPreface | Phase::NoSettings) { break (ca, h); }
     };
     if matches!(ca.kind, Kind::TooManyStreams { .. }) { h2.max_streams = *rng.pick(&[2u32, 4, 10, 100]); }
+    if matches!(ca.kind, Kind::TooManyStreams { window_probe: true, .. }) { h2.conn_window = 65535; }
     let sibling_len = *rng.pick(&[2000usize, 9000, 30_000]);
     // ---- backend of the abuser's cluster
     let mut r0: Vec<(u64, usize, u64)> = Vec::new();
